@@ -69,6 +69,86 @@ theorem tcArgs_app_error (Γ : Env) (e : Expr) (post : ExprList) (d : Diag) (he 
       | error d' => simp [ht] at hp
       | ok cs' => simp [ih cs' ht]
 
+/-! ## rows of an array literal -/
+
+theorem sub_or_not (e : Expr) : (∃ es, e = .sub es) ∨ (∀ es, e = .sub es → False) := by
+  cases e <;> simp
+
+theorem tcRows_cons_sub (Γ : Env) (es r : ExprList) :
+    tcRows Γ (.cons (.sub es) r) = tcRows Γ es >>= fun lv => tcRows Γ r >>= fun lr =>
+      pure (zipLevels ([Item.sub es.length] :: lv) lr) := by
+  rw [tcRows.eq_2]
+  cases tcRows Γ es <;> simp
+
+theorem tcRows_cons_leaf (Γ : Env) (e : Expr) (r : ExprList) (hne : ∀ es, e = .sub es → False) :
+    tcRows Γ (.cons e r) = tc Γ e >>= fun c => tcRows Γ r >>= fun lr =>
+      pure (zipLevels [[Item.leaf e.ln c]] lr) := by
+  rw [tcRows.eq_3 _ _ _ hne]
+  cases tc Γ e <;> simp
+
+theorem tc_sub (Γ : Env) (es : ExprList) :
+    tc Γ (.sub es) = tcRows Γ es >>= fun _ => pure ⟨.val .int, .temp⟩ := by
+  simp only [tc]
+
+theorem tcRows_head_error (Γ : Env) (e : Expr) (post : ExprList) (d : Diag) (he : tc Γ e = .error d) :
+    tcRows Γ (.cons e post) = .error d := by
+  rcases sub_or_not e with ⟨es, rfl⟩ | hne
+  · rw [tc_sub] at he
+    rw [tcRows_cons_sub]
+    cases hr : tcRows Γ es with
+    | error d' => simp [hr] at he ⊢; exact he
+    | ok lv => simp [hr] at he
+  · rw [tcRows_cons_leaf _ _ _ hne]; simp [he]
+
+theorem tcRows_app_prefix (Γ : Env) : (pre rest : ExprList) → (d : Diag) →
+    tcRows Γ pre = .error d → tcRows Γ (pre.app rest) = .error d
+  | .nil, _, _, h => by simp [tcRows] at h
+  | .cons e t, rest, d, h => by
+    have ih := tcRows_app_prefix Γ t rest
+    simp only [ExprList.app] at *
+    rcases sub_or_not e with ⟨es, rfl⟩ | hne
+    · rw [tcRows_cons_sub] at h ⊢
+      cases he : tcRows Γ es with
+      | error d' => simp [he] at h ⊢; exact h
+      | ok lv =>
+        simp [he] at h ⊢
+        cases ht : tcRows Γ t with
+        | error d' => simp [ht] at h; subst h; simp [ih d' ht]
+        | ok cs => simp [ht] at h
+    · rw [tcRows_cons_leaf _ _ _ hne] at h ⊢
+      cases he : tc Γ e with
+      | error d' => simp [he] at h ⊢; exact h
+      | ok c =>
+        simp [he] at h ⊢
+        cases ht : tcRows Γ t with
+        | error d' => simp [ht] at h; subst h; simp [ih d' ht]
+        | ok cs => simp [ht] at h
+
+theorem tcRows_app_error (Γ : Env) (e : Expr) (post : ExprList) (d : Diag) (he : tc Γ e = .error d) :
+    (pre : ExprList) → (lv : Levels) → tcRows Γ pre = .ok lv →
+    tcRows Γ (pre.app (.cons e post)) = .error d
+  | .nil, _, _ => by simpa [ExprList.app] using tcRows_head_error Γ e post d he
+  | .cons e' t, lv, hp => by
+    have ih := tcRows_app_error Γ e post d he t
+    simp only [ExprList.app] at *
+    rcases sub_or_not e' with ⟨es, rfl⟩ | hne
+    · rw [tcRows_cons_sub] at hp ⊢
+      cases he' : tcRows Γ es with
+      | error d' => simp [he'] at hp
+      | ok lv' =>
+        simp [he'] at hp ⊢
+        cases ht : tcRows Γ t with
+        | error d' => simp [ht] at hp
+        | ok cs' => simp [ih cs' ht]
+    · rw [tcRows_cons_leaf _ _ _ hne] at hp ⊢
+      cases he' : tc Γ e' with
+      | error d' => simp [he'] at hp
+      | ok c =>
+        simp [he'] at hp ⊢
+        cases ht : tcRows Γ t with
+        | error d' => simp [ht] at hp
+        | ok cs' => simp [ih cs' ht]
+
 /-! ## sequences -/
 
 /-- table after the items `pre` of a block (what `tcSeq` does to them) -/
@@ -300,15 +380,13 @@ theorem tcQuals_app : (pre : QualList) → (Γ : Env) → (rest : QualList) →
     | error d' => simp
     | ok c =>
       simp
-      cases hct : c.ct with
-      | val ty =>
-        cases ty <;> simp
-        rename_i ec et
-        cases ha : Γ.add ln x (.qual ⟨.val et, ec.toCst⟩) with
+      cases hq : qualIter c with
+      | none => simp
+      | some it =>
+        simp
+        cases ha : Γ.add ln x (.qual it) with
         | error d' => simp
         | ok Γ1 => simp [ih]
-      | recordId s => simp
-      | enumId s => simp
   | .cons (.filter ln e) t, Γ, rest => by
     have ih := tcQuals_app t
     simp only [QualList.app, tcQuals]
@@ -611,9 +689,9 @@ def Frame.env (Γ : Env) : Frame → Except Diag Env
   | .forInA _ _ _ => .ok Γ
   | .forInB ln x a => do
     let ca ← tc Γ a
-    match ca.ct with
-    | .val (.array _ et) => pure (Γ.push [(x, .forin ⟨.val et, ca.cst⟩)])
-    | _ => .error ⟨ln, .forinNotArray⟩
+    match forinIter ca with
+    | some it => pure (Γ.push [(x, .forin it)])
+    | none => .error ⟨ln, .forinNotArray⟩
   | .callF _ _ => .ok Γ
   | .callA _ f pre _ => do let _ ← tc Γ f; let _ ← tcArgs Γ pre; pure Γ
   | .attr _ _ => .ok Γ
@@ -626,7 +704,7 @@ def Frame.env (Γ : Env) : Frame → Except Diag Env
       k.pre Γ
       pure Γ
     | _ => .error ⟨s.ln, .matchNotEnum⟩
-  | .arrayE _ pre _ _ _ => do let _ ← tcArgs Γ pre; pure Γ
+  | .arrayE _ pre _ _ _ => do let _ ← tcRows Γ pre; pure Γ
   | .derefA _ _ => .ok Γ
   | .derefI _ a pre _ => do let _ ← tc Γ a; let _ ← tcArgs Γ pre; pure Γ
   | .lcE _ qs _ _ => tcQuals Γ.push qs
